@@ -31,7 +31,8 @@ RULE += (
     "(ConstFuture / lazy Future), which every convention must pass on untouched and uncomputed. Replacement "
     "kind asynq_fn (an @asynq() generator function given as new) is held to the statement's four conventions. "
     "Calls pass keywords named fn, mock_fn and args besides y. In sequential compositions of callable-object "
-    "replacements the second fake is a copy.copy of the first."
+    "replacements the second fake is a copy.copy of the first. Replacement kind pair_fn: a hand-made "
+    "@asynq(sync_fn=twin) pair over a generator body."
 )
 ASSUMPTIONS = ["unittest.mock itself is trusted"]
 UNIT_TIMEOUT = {"quick": 200, "thorough": 600}
